@@ -1,3 +1,410 @@
 package main
 
-func runProperty(p *Prog, id, tier string, cfg SolverCfg, verifDir string) int { return 2 }
+// Property runner: collects the functions under contract that serve a property,
+// discharges the obligations tagged with it, applies known findings, replays
+// failures, writes evidence and prints VIOLATION / KNOWN-FINDING lines.
+
+import (
+	"bytes"
+	"context"
+	"encoding/json"
+	"fmt"
+	"os"
+	"os/exec"
+	"path/filepath"
+	"sort"
+	"strconv"
+	"strings"
+	"time"
+)
+
+type KnownFinding struct {
+	Property   string `json:"property"`
+	Obligation string `json:"obligation"`
+	What       string `json:"what"`
+	Witness    string `json:"witness"`
+	Status     string `json:"status"` // open | fixed
+	Commit     string `json:"commit,omitempty"`
+}
+
+type PropMeta struct {
+	Level       string   `json:"level"`
+	Explanation string   `json:"explanation"`
+	Assumptions []string `json:"assumptions"`
+	ReplayPkg   string   `json:"replay_pkg"`  // package dir (relative to repo) the replay driver is injected into
+	ReplayTest  string   `json:"replay_test"` // test function name
+	Bounded     []string `json:"bounded"`
+}
+
+func hasProp(ps []string, id string) bool {
+	for _, p := range ps {
+		if p == id {
+			return true
+		}
+	}
+	return false
+}
+
+// contractServes: does a contract serve property id (header props, safety props or clause tags)?
+func contractServes(c *Contract, id string) bool {
+	if hasProp(c.Props, id) || hasProp(c.Safety, id) {
+		return true
+	}
+	for _, cl := range c.Ensures {
+		if hasProp(cl.Props, id) {
+			return true
+		}
+	}
+	for _, ls := range c.Loops {
+		for _, cl := range ls.Invariants {
+			if hasProp(cl.Props, id) {
+				return true
+			}
+		}
+	}
+	for _, a := range c.Asserts {
+		if hasProp(a.C.Props, id) {
+			return true
+		}
+	}
+	return false
+}
+
+type violation struct {
+	Obligation string
+	Func       string
+	Class      string
+	Desc       string
+	Pos        string
+	Status     string
+	Output     string
+	Model      string
+	Replay     string
+	Found      bool
+	Input      string
+}
+
+func runProperty(p *Prog, id, tier string, cfg SolverCfg, verifDir string) int {
+	t0 := time.Now()
+	seed := 0
+	if s := os.Getenv("VERIF_SEED"); s != "" {
+		seed, _ = strconv.Atoi(s)
+	}
+	var meta PropMeta
+	if data, err := os.ReadFile(filepath.Join(verifDir, "props", id+".json")); err == nil {
+		json.Unmarshal(data, &meta)
+	}
+	if meta.Level == "" {
+		meta.Level = "proof"
+	}
+	var known []KnownFinding
+	if data, err := os.ReadFile(filepath.Join(verifDir, "known_findings.json")); err == nil {
+		if err := json.Unmarshal(data, &known); err != nil {
+			fmt.Fprintln(os.Stderr, "govc: known_findings.json:", err)
+			return 2
+		}
+	}
+
+	var keys []string
+	for k, c := range p.cs.Funcs {
+		if c.Kind == "func" && contractServes(c, id) {
+			keys = append(keys, k)
+		}
+	}
+	sort.Strings(keys)
+	var viols []violation
+	var vcs []*VC
+	var jobs []job
+	var broken []string
+	trusted := map[string]bool{}
+	var funcsUnder, inlined []string
+	inlinedSet := map[string]bool{}
+	notes := map[string]bool{}
+	for _, k := range keys {
+		c := p.cs.Funcs[k]
+		fn := p.funcs[k]
+		if fn == nil || len(fn.Blocks) == 0 {
+			viols = append(viols, violation{Obligation: k + "#detached", Func: k, Class: "detached", Desc: "contract detached: function " + c.Target + " no longer exists; the property cannot be shown on code the contract does not attach to", Status: "detached"})
+			continue
+		}
+		vc := VerifyFunction(p, fn, c)
+		vcs = append(vcs, vc)
+		funcsUnder = append(funcsUnder, vc.funcName())
+		for _, e := range vc.specErrors {
+			viols = append(viols, violation{Obligation: vc.funcName() + "#contract", Func: vc.funcName(), Class: "detached", Desc: "contract no longer applies to the code: " + e, Status: "detached"})
+		}
+		// loops declared in the contract must exist
+		for n := range c.Loops {
+			if n >= len(vc.topFrame.loops) {
+				viols = append(viols, violation{Obligation: fmt.Sprintf("%s#loop%d", vc.funcName(), n), Func: vc.funcName(), Class: "detached", Desc: fmt.Sprintf("contract names loop %d but the function has %d loops", n, len(vc.topFrame.loops)), Status: "detached"})
+			}
+		}
+		for _, o := range vc.obls {
+			if hasProp(o.Props, id) {
+				jobs = append(jobs, job{vc, o})
+			}
+		}
+		for _, o := range vc.covers {
+			jobs = append(jobs, job{vc, o})
+		}
+		for t := range vc.trustedUsed {
+			trusted[t] = true
+		}
+		for f := range vc.inlinedFns {
+			if !inlinedSet[f] {
+				inlinedSet[f] = true
+				inlined = append(inlined, f)
+			}
+		}
+		for _, n := range vc.notes {
+			notes[n] = true
+		}
+		for _, n := range vc.outside {
+			notes["outside subset ("+vc.funcName()+"): "+n] = true
+		}
+	}
+	DischargeAll(cfg, jobs)
+
+	nObl, nDis := 0, 0
+	solverSecs := 0.0
+	bySolver := map[string]int{}
+	var samples []map[string]interface{}
+	for _, j := range jobs {
+		o := j.o
+		solverSecs += o.Secs
+		if o.Cover {
+			if o.Status == "unsat" {
+				broken = append(broken, "vacuous: "+o.Name+" is provably unreachable (contradictory preconditions/invariants)")
+			}
+			continue
+		}
+		nObl++
+		if o.Status == "unsat" {
+			nDis++
+			bySolver[o.Solver]++
+			if len(samples) < 8 && (o.Class == "post" || o.Class == "inv-keep" || o.Class == "frame" || len(samples) < 3) {
+				samples = append(samples, map[string]interface{}{"obligation": o.Name, "class": o.Class, "what": o.Desc, "solver": o.Solver, "secs": round3(o.Secs), "script_lines": o.Prefix})
+			}
+			continue
+		}
+		v := violation{Obligation: o.Name, Func: o.Func, Class: o.Class, Desc: o.Desc, Pos: fmt.Sprintf("%s:%d", o.Pos.Filename, o.Pos.Line), Status: o.Status, Output: o.Output}
+		v.Model = modelOf(j.vc, o, cfg)
+		viols = append(viols, v)
+	}
+	sort.Strings(inlined)
+
+	// known findings and replay
+	exit := 0
+	nViol := 0
+	var knownPrinted []string
+	os.MkdirAll(filepath.Join(verifDir, "replays", id), 0o755)
+	replayDone := false
+	var replayFound bool
+	var replayInput, replayOut string
+	for i := range viols {
+		v := &viols[i]
+		matched := false
+		for _, kf := range known {
+			if kf.Property == id && kf.Status != "fixed" && kf.Obligation == v.Obligation {
+				matched = true
+				line := fmt.Sprintf("KNOWN-FINDING: property=%s %s (obligation %s)", id, kf.What, kf.Obligation)
+				fmt.Println(line)
+				knownPrinted = append(knownPrinted, line)
+			}
+		}
+		if matched {
+			continue
+		}
+		nViol++
+		// replay on the real code (one driver run per property and check)
+		if meta.ReplayTest != "" && !replayDone {
+			replayDone = true
+			replayFound, replayInput, replayOut = runReplay(p.repo, verifDir, id, meta, seed, v.Model, "")
+		}
+		v.Found, v.Input = replayFound, replayInput
+		rp := filepath.Join(verifDir, "replays", id, sanitize(v.Obligation)+".json")
+		rec := map[string]interface{}{
+			"property": id, "obligation": v.Obligation, "function": v.Func, "class": v.Class, "what": v.Desc, "where": v.Pos,
+			"verifier_status": v.Status, "verifier_output": v.Output, "model": v.Model,
+			"replay": map[string]interface{}{"driver": meta.ReplayTest, "failing_input_found": v.Found, "input": v.Input, "output": truncate(replayOut, 4000)},
+		}
+		data, _ := json.MarshalIndent(rec, "", " ")
+		os.WriteFile(rp, data, 0o644)
+		if v.Found {
+			fmt.Printf("VIOLATION property=%s replay=%s\n", id, rp)
+		} else {
+			fmt.Printf("VIOLATION property=%s replay=%s no-failing-input-found\n", id, rp)
+		}
+		fmt.Printf("  obligation %s [%s] %s (%s)\n", v.Obligation, v.Status, v.Desc, v.Pos)
+		exit = 1
+	}
+	if nObl == 0 && len(viols) == 0 {
+		broken = append(broken, "no obligation generated for "+id)
+	}
+	for _, b := range broken {
+		fmt.Println("BROKEN:", b)
+		if exit == 0 {
+			exit = 2
+		}
+	}
+
+	// evidence
+	var tb []string
+	for t := range trusted {
+		tb = append(tb, t)
+	}
+	sort.Strings(tb)
+	tb = append(tb, "govc VC generator + go/ssa (x/tools v0.29.0)", "SMT solvers z3 4.8.12 / z3 5.1.0 / cvc5 1.0 (one unsat accepted)")
+	var nl []string
+	for n := range notes {
+		nl = append(nl, n)
+	}
+	sort.Strings(nl)
+	assumptions := append([]string{}, meta.Assumptions...)
+	assumptions = append(assumptions,
+		"machine integers are modelled as mathematical integers (overflow obligations only where the contract says `ovf`)",
+		"strings/byte slices are byte sequences; map iteration order is arbitrary; no goroutines; memory exhaustion not modelled",
+		"user callbacks act only as their functype contracts say (DESIGN.md §2.6)")
+	assumptions = append(assumptions, nl...)
+	level := meta.Level
+	cov := map[string]interface{}{
+		"obligations": nObl, "discharged": nDis,
+		"checker_cmd":  fmt.Sprintf("/verif/bin/govc -prop %s -tier %s", id, tier),
+		"trusted_base": tb,
+		"functions_under_contract": funcsUnder,
+		"functions_inlined_or_auto_summarised": inlined,
+		"discharged_by_solver": bySolver,
+		"solver_seconds": round3(solverSecs),
+		"load_seconds":   round3(p.loadSecs),
+		"samples":        samples,
+		"known_findings_printed": knownPrinted,
+		"bounded_parts": meta.Bounded,
+		"explanation":   meta.Explanation,
+		"vacuity":       fmt.Sprintf("%d cover checks (entry/exit reachability per function), %d provably unreachable", countCovers(jobs), len(broken)),
+	}
+	if len(samples) == 0 {
+		cov["samples"] = []map[string]interface{}{{"note": "no obligation discharged"}}
+	}
+	ev := map[string]interface{}{
+		"property_id": id, "tier": tier, "seed": seed, "level": level, "coverage": cov,
+		"assumptions": assumptions, "wall_s": round3(time.Since(t0).Seconds() + p.loadSecs), "violations": nViol,
+	}
+	os.MkdirAll(filepath.Join(verifDir, "evidence"), 0o755)
+	data, _ := json.MarshalIndent(ev, "", " ")
+	os.WriteFile(filepath.Join(verifDir, "evidence", id+".json"), data, 0o644)
+	fmt.Printf("%s: %d/%d obligations discharged over %d functions, %d violations, %.1fs\n", id, nDis, nObl, len(funcsUnder), nViol, time.Since(t0).Seconds()+p.loadSecs)
+	return exit
+}
+
+func countCovers(jobs []job) int {
+	n := 0
+	for _, j := range jobs {
+		if j.o.Cover {
+			n++
+		}
+	}
+	return n
+}
+
+func round3(f float64) float64 { return float64(int(f*1000+0.5)) / 1000 }
+
+// modelOf asks z3 for values of the function's scalar parameters.
+func modelOf(vc *VC, o *Obligation, cfg SolverCfg) string {
+	var terms []string
+	if vc.topFrame != nil {
+		for i, prm := range vc.fn.Params {
+			if i < len(vc.topFrame.params) {
+				t := vc.topFrame.params[i].T
+				switch t.Sort {
+				case SInt, SBool:
+					terms = append(terms, t.S)
+				case SStr:
+					terms = append(terms, "(slen "+t.S+")")
+				case SSlice:
+					terms = append(terms, "(sl-len "+t.S+")")
+				}
+				_ = prm
+			}
+		}
+	}
+	out := ModelFor(vc, o, cfg, terms)
+	return truncate(strings.TrimSpace(out), 1500)
+}
+
+// runReplay injects the property's replay driver into the package with an
+// overlay and runs it against the real code. The driver prints
+// "REPLAY-FAIL <json>" for a failing input.
+func runReplay(repo, verifDir, id string, meta PropMeta, seed int, model, input string) (bool, string, string) {
+	src := filepath.Join(verifDir, "replay", id, "replay_test.go")
+	if _, err := os.Stat(src); err != nil {
+		return false, "", "no replay driver"
+	}
+	tmp, err := os.MkdirTemp("", "govc-replay")
+	if err != nil {
+		return false, "", err.Error()
+	}
+	defer os.RemoveAll(tmp)
+	pkgDir := filepath.Join(repo, meta.ReplayPkg)
+	ov := map[string]map[string]string{"Replace": {filepath.Join(pkgDir, "zz_verif_replay_"+strings.ToLower(id)+"_test.go"): src}}
+	// helper files shared by drivers
+	helpers, _ := filepath.Glob(filepath.Join(verifDir, "replay", id, "*_helper_test.go"))
+	for _, h := range helpers {
+		ov["Replace"][filepath.Join(pkgDir, "zz_verif_"+filepath.Base(h))] = h
+	}
+	ovData, _ := json.Marshal(ov)
+	ovPath := filepath.Join(tmp, "ov.json")
+	os.WriteFile(ovPath, ovData, 0o644)
+	ctx, cancel := context.WithTimeout(context.Background(), 180*time.Second)
+	defer cancel()
+	cmd := exec.CommandContext(ctx, "go", "test", "-overlay", ovPath, "-vet=off", "-count=1", "-timeout", "120s", "-run", "^"+meta.ReplayTest+"$", "./"+meta.ReplayPkg)
+	cmd.Dir = repo
+	cmd.Env = append(os.Environ(), "GOFLAGS=-mod=mod", "GOPROXY=off", "GOSUMDB=off", "GOTOOLCHAIN=local",
+		"VERIF_SEED="+strconv.Itoa(seed), "VERIF_MODEL="+model, "VERIF_REPLAY_INPUT="+input, "GOCACHE="+filepath.Join(os.TempDir(), "govc-gocache"))
+	var buf bytes.Buffer
+	cmd.Stdout = &buf
+	cmd.Stderr = &buf
+	cmd.Run()
+	out := buf.String()
+	for _, line := range strings.Split(out, "\n") {
+		if j := strings.Index(line, "REPLAY-FAIL "); j >= 0 {
+			return true, strings.TrimSpace(line[j+len("REPLAY-FAIL "):]), out
+		}
+	}
+	return false, "", out
+}
+
+// replayFile re-runs a stored replay against the current code.
+func replayFile(repo, verifDir, path string) int {
+	data, err := os.ReadFile(path)
+	if err != nil {
+		fmt.Fprintln(os.Stderr, err)
+		return 2
+	}
+	var rec struct {
+		Property   string `json:"property"`
+		Obligation string `json:"obligation"`
+		Replay     struct {
+			Found bool   `json:"failing_input_found"`
+			Input string `json:"input"`
+		} `json:"replay"`
+	}
+	if err := json.Unmarshal(data, &rec); err != nil {
+		fmt.Fprintln(os.Stderr, err)
+		return 2
+	}
+	var meta PropMeta
+	if d, err := os.ReadFile(filepath.Join(verifDir, "props", rec.Property+".json")); err == nil {
+		json.Unmarshal(d, &meta)
+	}
+	if !rec.Replay.Found {
+		fmt.Printf("replay %s: no failing input was recorded for obligation %s (verifier output only)\n", path, rec.Obligation)
+		return 0
+	}
+	found, input, out := runReplay(repo, verifDir, rec.Property, meta, 0, "", rec.Replay.Input)
+	if found {
+		fmt.Printf("VIOLATION property=%s replay=%s\n  input %s still fails on the current code\n", rec.Property, path, input)
+		return 1
+	}
+	fmt.Printf("replay %s: stored input no longer fails\n%s\n", path, truncate(out, 600))
+	return 0
+}
